@@ -227,6 +227,21 @@ Proof.
     - unfold same_book. repeat split; reflexivity. }
   unfold same_book in *. fields. exact H1.
 Qed.
+
+(* the coordinate part of a base shift: base point and relative bounds move by s, the constant terms absorb J*s *)
+Theorem shift_base_coords st s st' : s_shift_base st s = Ok (st', tt) ->
+  xbase st' = vmap2 add (xbase st) s /\ sl st' = vmap2 sub (sl st) s /\ su st' = vmap2 sub (su st) s /\
+  model_const st' = vmap2 add (model_const st) (matvec (model_jac st) s) /\ model_jac st' = model_jac st.
+Proof.
+  unfold s_shift_base. cbv beta delta [bind].
+  destruct (for_loop _ _ st) as [st1|] eqn:E; [|discriminate]. intros Hr. cbv zeta in Hr. injection Hr as <-.
+  pose (Q := fun st1 : model_state => xbase st1 = xbase st /\ sl st1 = sl st /\ su st1 = su st /\ model_const st1 = model_const st /\ model_jac st1 = model_jac st).
+  assert (H1: Q st1).
+  { eapply (for_loop_inv Q); [| |exact E].
+    - intros i c0 c1 b _ Hc Hb. cbv zeta in Hb. injection Hb as <- <-. unfold Q in *. fields. exact Hc.
+    - unfold Q. repeat split; reflexivity. }
+  unfold Q in H1. destruct H1 as (H1 & H2 & H3 & H4 & H5). fields. rewrite H1, H2, H3, H4, H5. repeat split; reflexivity.
+Qed.
 Lemma same_book_wf st st' : same_book st st' -> wf st -> wf st'.
 Proof.
   unfold same_book. intros (Hf & Ho & Hn & He & Hk & Hs & Hp & _ & _ & _ & _ & _ & _ & _ & Hl & _) W. destruct W.
